@@ -517,6 +517,13 @@ EXPANDERS = {'get_text_expanded', 'expand_sequence', 'parse_keyvals_dict', 'pars
              'expand_keyvals'}
 
 
+def _ancestors(n, stop):
+    p = getattr(n, '_parent', None)
+    while p is not None and p is not stop:
+        yield p
+        p = getattr(p, '_parent', None)
+
+
 def ex2(model):
     r = RuleResult('EX2', 'an argument token list that a handler hands back for expansion '
                    '(returns it) is not also expanded by the handler itself: a second expansion '
@@ -577,6 +584,18 @@ def ex2(model):
                         k = root(x)
                         if k:
                             returned.setdefault(k, n)
+        # (b) tokens that are already expanded (result of expand_sequence) are handed back
+        for n in iter_scope(f.node):
+            if isinstance(n, ast.Call) and T.call_name(n) == 'expand_sequence':
+                p = n._parent
+                tgt = None
+                if isinstance(p, ast.Assign) and isinstance(p.targets[0], ast.Name):
+                    tgt = p.targets[0].id
+                if isinstance(p, ast.Return) or (tgt and tgt in ret_names) \
+                        or any(isinstance(q, ast.Return) for q in _ancestors(n, f.node)):
+                    r.fail(n, 'the handler expands tokens itself and hands the expanded tokens back: '
+                           'they are expanded a second time, where the text of \\$, \\{, \\} is taken '
+                           'for markup', witness='a heading with \\$ or \\{ in its title')
         if not expanded and not returned:
             continue
         both = sorted(set(expanded) & set(returned))
